@@ -767,6 +767,26 @@ class Sim:
         kw = {}
         if self.seed_solution is not None:
             kw["seed_solution"] = self.seed_solution
+        sib = scn.get("sibling")
+
+        def make_sibling():
+            # a second solver object alive on the SAME device with another applied field (a user
+            # preparing a field sweep): it must not share mutable operators with the solver under test
+            import dataclasses as _dc
+
+            sib_field, _ = B.build_field(sib["field"], ctx)
+            sib_opts = _dc.replace(options, output_file=None)
+            self.sibling = tdgl.TDGLSolver(
+                device,
+                sib_opts,
+                applied_vector_potential=sib_field,
+                terminal_currents=B.build_currents(scn["drive"].get("currents")),
+                disorder_epsilon=B.build_epsilon(scn["drive"].get("epsilon")),
+            )
+            h.probe("sibling_solver")
+
+        if sib and sib["when"] == "before":
+            make_sibling()
         solver = tdgl.TDGLSolver(
             device,
             options,
@@ -775,6 +795,8 @@ class Sim:
             disorder_epsilon=eps,
             **kw,
         )
+        if sib and sib["when"] == "after":
+            make_sibling()
         self.A_obj = A_obj
         if late and late["phase"] == "post":
             B.apply_option_updates(solver.options, late["updates"])
